@@ -3,7 +3,7 @@
    element, every real weight*|J|, every shape-function value row (with partition of unity where
    stated; C06_partition_of_unity proves it for the 19 real tables at every point), every
    density value, every node coordinate function.                                             *)
-From Coq Require Import List Arith Bool PeanoNat Lia Reals Lra.
+From Coq Require Import List Arith Bool PeanoNat Lia Reals Lra Permutation.
 From EFModel Require Import C09_Loads.
 Import ListNotations.
 Open Scope R_scope.
@@ -81,6 +81,50 @@ Proof. exact point_load_total. Qed.
 Theorem C09_thickness_once : forall l d k t, l <> LineLoad -> dispatch l d = Some (k, t) ->
   (t = true <-> d = 2%nat) /\ (k + (if t then 1 else 0) = physical_dim l)%nat.
 Proof. exact thickness_once. Qed.
+
+
+(* the node selection is a SET (multiset semantics are excluded): the result depends only on which
+   ids occur in the list - invariant under reordering and under repetition of ids, e.g.
+   np.concatenate([nodes_bottom, nodes_right]) sharing the corner node *)
+Theorem C09_select_is_a_set : forall connect s1 s2 b,
+  (forall n, In n s1 <-> In n s2) -> select connect s1 b = select connect s2 b.
+Proof. exact select_ext. Qed.
+
+Theorem C09_select_permutation : forall connect s1 s2 b,
+  Permutation s1 s2 -> select connect s1 b = select connect s2 b.
+Proof. exact select_permutation. Qed.
+
+Theorem C09_select_duplicates : forall connect s extra b,
+  (forall n, In n extra -> In n s) -> select connect (s ++ extra) b = select connect s b.
+Proof. exact select_duplicates. Qed.
+
+(* when a call is split by a filter on the unknowns (Beam.add_lineLoad: Lagrange / Hermitian
+   unknowns), the value processed with each kept unknown is the user's value for THAT unknown:
+   zip and filter commute *)
+Theorem C09_filter_zip_commute : forall (U V : Type) (du : U) (dv : V) (keep : U -> bool) us vs,
+  length us = length vs ->
+  processed U V du dv keep us vs = filter (fun p => keep (fst p)) (combine us vs).
+Proof. exact filter_zip_commute. Qed.
+
+Theorem C09_processed_pairs_are_the_users : forall (U V : Type) (du : U) (dv : V) (keep : U -> bool) us vs u v,
+  length us = length vs ->
+  In (u, v) (processed U V du dv keep us vs) -> In (u, v) (combine us vs) /\ keep u = true.
+Proof. exact processed_pairs_are_the_users. Qed.
+
+(* counter-model of the variant that reads the unfiltered value list *)
+Theorem C09_unfiltered_values_refuted :
+  let keep := fun u : nat => negb (Nat.eqb u 0) in
+  processed nat R 0%nat 0 keep [0%nat; 1%nat] [10; 20] = [(1%nat, 20)] /\
+  processed_unfiltered nat R 0%nat keep [0%nat; 1%nat] [10; 20] = [(1%nat, 10)].
+Proof. exact unfiltered_values_refuted. Qed.
+
+Example C09_select_set_instance :
+  select [[0;1];[1;2];[2;3]]%nat [2;0;1;1;0]%nat true = select [[0;1];[1;2];[2;3]]%nat [0;1;2]%nat true.
+Proof. reflexivity. Qed.
+
+Print Assumptions C09_select_is_a_set.
+Print Assumptions C09_select_duplicates.
+Print Assumptions C09_filter_zip_commute.
 
 Example C09_nonvacuous :
   (let e := mk_lelem [0%nat; 1%nat] [mk_gpt (1/2) 3 [3/4; 1/4]; mk_gpt (1/2) 5 [1/4; 3/4]] [] in
